@@ -125,6 +125,7 @@ fn dispatch(ctx: &mut dec::Ctx, cmd: &Value) -> Vec<Value> {
         "cand" => vec![dec::cand(cmd)],
         "chroma_mv" => vec![dec::chroma_mv(cmd)],
         "header" => vec![dec::header(cmd)],
+        "parse" => vec![dec::parse(cmd)],
         "new" | "newreader" | "decode" | "cleanup" | "append" | "post" => {
             dec::history(ctx, cmd)
         }
